@@ -70,6 +70,17 @@ def run_shard(spec):
     def witness(law, key, case, detail):
         k = {"law": law}
         k.update(key)
+        try:
+            dvw = A.decode(case["text"])
+            mk = {"mixed_on_path": "no", "doc_mixed": "no"}
+            for o in case.get("ops", []):
+                m2 = B.mixed_keys(dvw, o[1])
+                for kk, vv in m2.items():
+                    if vv == "yes":
+                        mk[kk] = "yes"
+            k.update(mk)
+        except Exception:  # noqa: BLE001
+            pass
         B.record(res, k, case, detail)
 
     for di in range(spec["docs"]):
